@@ -4,6 +4,7 @@ import asyncio
 import codecs
 import functools
 import logging
+import math
 import os
 
 import lazy_object_proxy
@@ -42,7 +43,15 @@ class HippoPrettyPrinter(PrettyPrinter):
         super().__init__(*args, sort_dicts=False, **kwargs)
 
     # Only touch the public APIs, the private pprint APIs are unstable.
-    format = _with_patched_multidict(PrettyPrinter.format)
+    _base_format = _with_patched_multidict(PrettyPrinter.format)
+
+    def format(self, obj, context, maxlevels, level):
+        # repr() spells every NaN "nan", but the sign bit is part of the value
+        # on the wire, and "-nan" is something float() and friends give it back for.
+        if type(obj) is float and obj != obj and math.copysign(1.0, obj) < 0:
+            return "-nan", True, False
+        return self._base_format(obj, context, maxlevels, level)
+
     pprint = _with_patched_multidict(PrettyPrinter.pprint)
     _base_pformat = _with_patched_multidict(PrettyPrinter.pformat)
 
